@@ -1073,12 +1073,14 @@ func (h *hist3) burst(t testingT, src, sched *choice.Source) []Finding {
 					if first {
 						first = false
 						wg.Wait()
-						// victim: the smallest current vertex other than c
+						// victim: the smallest current vertex (not "the smallest other than
+						// c": which vertex comes first is the iteration order of a Go map, and
+						// the history must not depend on it)
 						var w model3d.Coord3D
 						found := false
 						for _, f := range h.list {
 							for _, v := range f {
-								if v != c && (!found || less3(v, w)) {
+								if !found || less3(v, w) {
 									w, found = v, true
 								}
 							}
